@@ -98,4 +98,177 @@ KindOf(p, pendingName) ==
 \* a request that the sender must remember until its response arrives
 Registers(p) == p.k \in {"connect", "createStream"} /\ p.tid # Num0
 ReqName(p) == IF p.k = "connect" THEN "connect" ELSE "createStream"
+
+\* ------------------------------------------------------------------ field view of a packet (C03 codec model)
+\* A packet seen as the sequence of its fields in wire order.  A field holds an AMF0 value (above), one of the
+\* numeric values below (control packets), or Absent (an optional trailing field that is not sent).
+Absent       == [a |-> "absent"]
+U32V(hi, lo) == [a |-> "u32", hi |-> hi, lo |-> lo]
+U16V(v)      == [a |-> "u16", v |-> v]
+U8V(v)       == [a |-> "u8", v |-> v]
+EmptyStr     == S(<<>>)
+
+\* a slot: the library's field name, the class of value it takes (str / num / obj = object only / any = any AMF0
+\* value / u32 / u16 / u8), and whether it is an optional trailing field
+Slot(f, c, opt) == [f |-> f, c |-> c, opt |-> opt]
+CmdHead == <<Slot("CommandName", "str", FALSE), Slot("TransactionID", "num", FALSE)>>
+SlotsOf(k) ==
+  CASE k \in {"connect", "connectRes"} -> CmdHead \o <<Slot("CommandObject", "obj", FALSE), Slot("Args", "obj", TRUE)>>
+    [] k = "createStream"    -> CmdHead \o <<Slot("CommandObject", "any", FALSE)>>
+    [] k = "createStreamRes" -> CmdHead \o <<Slot("CommandObject", "any", FALSE), Slot("StreamID", "num", FALSE)>>
+    [] k = "publish"         -> CmdHead \o <<Slot("CommandObject", "any", FALSE), Slot("StreamName", "str", FALSE),
+                                             Slot("StreamType", "str", FALSE)>>
+    [] k = "play"            -> CmdHead \o <<Slot("CommandObject", "any", FALSE), Slot("StreamName", "str", FALSE)>>
+    [] k = "call"            -> CmdHead \o <<Slot("CommandObject", "any", TRUE), Slot("Args", "any", TRUE)>>
+    [] k = "scs"             -> <<Slot("ChunkSize", "u32", FALSE)>>
+    [] k = "winack"          -> <<Slot("AckSize", "u32", FALSE)>>
+    [] k = "peerbw"          -> <<Slot("Bandwidth", "u32", FALSE), Slot("LimitType", "u8", FALSE)>>
+    [] k = "uc"              -> <<Slot("EventType", "u16", FALSE), Slot("EventData", "data", FALSE), Slot("ExtraData", "u32", TRUE)>>
+IsCommandKind(k) == k \in {"connect", "connectRes", "createStream", "createStreamRes", "publish", "play", "call"}
+
+\* the values a packet holds, slot by slot
+Fields(p) ==
+  CASE p.k = "connect"         -> <<S(Connect), N(p.tid), p.obj, IF p.hasargs THEN p.args ELSE Absent>>
+    [] p.k = "connectRes"      -> <<S(ResultName), N(p.tid), p.obj, IF p.hasargs THEN p.args ELSE Absent>>
+    [] p.k = "createStream"    -> <<S(CreateStream), N(p.tid), p.obj>>
+    [] p.k = "createStreamRes" -> <<S(ResultName), N(p.tid), p.obj, N(p.sid)>>
+    [] p.k = "publish"         -> <<S(Publish), N(p.tid), p.obj, p.name, p.type>>
+    [] p.k = "play"            -> <<S(Play), N(p.tid), p.obj, p.name>>
+    [] p.k = "call"            -> <<S(p.cmd), N(p.tid), IF p.hasobj THEN p.obj ELSE Absent, IF p.hasargs THEN p.args ELSE Absent>>
+    [] p.k = "scs"             -> <<U32V(p.hi, p.lo)>>
+    [] p.k = "winack"          -> <<U32V(p.hi, p.lo)>>
+    [] p.k = "peerbw"          -> <<U32V(p.hi, p.lo), U8V(p.limit)>>
+    [] p.k = "uc"              -> <<U16V(p.et), IF p.et = 26 THEN U8V(p.d0) ELSE U32V(p.dhi, p.dlo),
+                                    IF p.et = 3 THEN U32V(p.xhi, p.xlo) ELSE Absent>>
+
+\* pattern strings as literal bytes, so that decoded values compare with = 
+RECURSIVE NormVal(_)
+NormVal(v) ==
+  CASE v.a = "strf" -> S(FieldBytes(Fill(v.n, v.id)))
+    [] v.a = "obj"  -> O([i \in 1..Len(v.p) |-> <<v.p[i][1], NormVal(v.p[i][2])>>])
+    [] OTHER        -> v
+NormFields(fs) == [i \in 1..Len(fs) |-> NormVal(fs[i])]
+
+\* What the receiver's packet holds BEFORE it is unmarshalled into:
+\*  "ctor": the packet made by the library's constructor for that type (the path of DecodeMessage / ExpectPacket);
+\*          tid is the transaction id the response constructors are given (taken from the wire)
+\*  "zero": a blank packet (every string empty, every number 0, no values)
+\* The outcome of unmarshalling must not depend on it.
+Target(k, into, tid) ==
+  IF into = "ctor"
+  THEN CASE k = "connect"         -> <<S(Connect), N(Num1), O(<<>>), Absent>>
+         [] k = "connectRes"      -> <<S(ResultName), N(tid), O(<<>>), Absent>>
+         [] k = "createStream"    -> <<S(CreateStream), N(Num2), Nul>>
+         [] k = "createStreamRes" -> <<S(ResultName), N(tid), Nul, N(Num0)>>
+         [] k = "publish"         -> <<S(Publish), N(Num0), Nul, EmptyStr, S(Live)>>
+         [] k = "play"            -> <<S(Play), N(Num0), Nul, EmptyStr>>
+         [] k = "call"            -> <<EmptyStr, N(Num0), Absent, Absent>>
+         [] k = "scs"             -> <<U32V(0, 128)>>
+         [] k = "winack"          -> <<U32V(0, 0)>>
+         [] k = "peerbw"          -> <<U32V(0, 0), U8V(0)>>
+         [] k = "uc"              -> <<U16V(0), U32V(0, 0), Absent>>
+  ELSE CASE k \in {"connect", "connectRes"} -> <<EmptyStr, N(Num0), O(<<>>), Absent>>
+         [] k = "createStream"    -> <<EmptyStr, N(Num0), Absent>>
+         [] k = "createStreamRes" -> <<EmptyStr, N(Num0), Absent, N(Num0)>>
+         [] k = "publish"         -> <<EmptyStr, N(Num0), Absent, EmptyStr, EmptyStr>>
+         [] k = "play"            -> <<EmptyStr, N(Num0), Absent, EmptyStr>>
+         [] k = "call"            -> <<EmptyStr, N(Num0), Absent, Absent>>
+         [] k = "scs"             -> <<U32V(0, 0)>>
+         [] k = "winack"          -> <<U32V(0, 0)>>
+         [] k = "peerbw"          -> <<U32V(0, 0), U8V(0)>>
+         [] k = "uc"              -> <<U16V(0), U32V(0, 0), Absent>>
+
+\* Named deviations of the codec (dev = "none": the property):
+\*  "empty-is-absent":   a trailing string field that is empty is not marshalled (and not counted by Size); the
+\*                       decoder, finding nothing left, keeps what its packet held
+\*  "trust-preset":      the decoder checks and skips the command name but does not store it (it relies on the
+\*                       constructor having set it)
+\*  "zero-keeps-preset": a number 0 on the wire is taken as "not set": the decoder keeps what its packet held
+IsEmptyStr(v) == (v.a = "str" /\ v.b = <<>>) \/ (v.a = "strf" /\ v.n = 0)
+IsZeroNum(v)  == (v.a = "num" /\ v.b = Num0) \/ (v.a = "u32" /\ v.hi = 0 /\ v.lo = 0)
+FieldLD(v) ==
+  CASE v.a = "absent" -> <<>>
+    [] v.a = "u32"    -> <<U32X(v.hi, v.lo)>>
+    [] v.a = "u16"    -> <<U16(v.v)>>
+    [] v.a = "u8"     -> <<U8(v.v)>>
+    [] OTHER          -> ValLD(v)
+Omitted(k, fs, i, dev) == dev = "empty-is-absent" /\ IsCommandKind(k) /\ i = Len(fs) /\ i > 3
+                          /\ SlotsOf(k)[i].c = "str" /\ IsEmptyStr(fs[i])
+RECURSIVE EncFrom(_, _, _, _)
+EncFrom(k, fs, i, dev) == IF i > Len(fs) THEN <<>>
+                          ELSE (IF Omitted(k, fs, i, dev) THEN <<>> ELSE FieldLD(fs[i])) \o EncFrom(k, fs, i + 1, dev)
+EncFieldsD(k, fs, dev) == EncFrom(k, fs, 1, dev)          \* MarshalBinary
+SizeD(k, fs, dev)      == ByteLen(EncFieldsD(k, fs, dev)) \* Size()
+
+\* ---- byte-level decoder of the value language: [ok, v, n] = value and number of bytes it occupies at 1-based offset o
+DErr == [ok |-> FALSE]
+DOk(v, n) == [ok |-> TRUE, v |-> v, n |-> n]
+RECURSIVE DecVal(_, _), DecProps(_, _, _, _)
+DecVal(b, o) ==
+  IF o > Len(b) THEN DErr
+  ELSE CASE b[o] = 0 -> IF o + 8 > Len(b) THEN DErr ELSE DOk(N(Sub(b, o + 1, 8)), 9)
+         [] b[o] = 1 -> IF o + 1 > Len(b) THEN DErr ELSE DOk(B(b[o + 1] # 0), 2)
+         [] b[o] = 2 -> IF o + 2 > Len(b) THEN DErr
+                        ELSE LET l == BE16(b, o + 1) IN IF o + 2 + l > Len(b) THEN DErr ELSE DOk(S(Sub(b, o + 3, l)), 3 + l)
+         [] b[o] = 3 -> DecProps(b, o + 1, o, <<>>)
+         [] b[o] = 5 -> DOk(Nul, 1)
+         [] b[o] = 6 -> DOk(Und, 1)
+         [] OTHER    -> DErr
+\* properties until 00 00 09; an empty name followed by anything else is a property
+DecProps(b, o, start, acc) ==
+  IF o + 2 > Len(b) THEN DErr
+  ELSE LET l == BE16(b, o) IN
+       IF l = 0 /\ b[o + 2] = 9 THEN DOk(O(acc), o + 3 - start)
+       ELSE IF o + 1 + l > Len(b) THEN DErr
+       ELSE LET d == DecVal(b, o + 2 + l) IN
+            IF ~d.ok THEN DErr ELSE DecProps(b, o + 2 + l + d.n, start, Append(acc, <<Sub(b, o + 2, l), d.v>>))
+
+ClassOk(c, v) == CASE c = "str" -> v.a = "str" [] c = "num" -> v.a = "num" [] c = "obj" -> v.a = "obj" [] OTHER -> TRUE
+
+\* UnmarshalBinary of a command packet of kind k into a packet holding `target`, shaped like the implementation:
+\* one slot after the other, the offset advanced by what the slot occupied.  [ok, f] = the fields afterwards.
+RECURSIVE DecSlots(_, _, _, _, _, _, _)
+DecSlots(k, b, o, target, i, acc, dev) ==
+  LET sl == SlotsOf(k) IN
+  IF i > Len(sl) THEN [ok |-> TRUE, f |-> acc]
+  ELSE IF o > Len(b)                                     \* nothing left
+       THEN IF sl[i].opt THEN DecSlots(k, b, o, target, i + 1, Append(acc, Absent), dev)   \* absent, whatever the packet held
+            ELSE IF dev = "empty-is-absent" /\ sl[i].c = "str" /\ i = Len(sl) /\ i > 3
+                 THEN DecSlots(k, b, o, target, i + 1, Append(acc, target[i]), dev)
+            ELSE DErr
+       ELSE LET d == DecVal(b, o) IN
+            IF ~d.ok THEN DErr
+            ELSE IF ~ClassOk(sl[i].c, d.v) THEN DErr
+            ELSE LET keep == \/ (dev = "trust-preset" /\ i = 1)
+                             \/ (dev = "zero-keeps-preset" /\ sl[i].c = "num" /\ IsZeroNum(d.v))
+                 IN DecSlots(k, b, o + d.n, target, i + 1, Append(acc, IF keep THEN target[i] ELSE d.v), dev)
+
+\* UnmarshalBinary of a control packet
+DecCtl(k, b, target, dev) ==
+  LET u32(o)   == U32V(BE16(b, o), BE16(b, o + 2))
+      kept(v, i) == IF dev = "zero-keeps-preset" /\ IsZeroNum(v) THEN target[i] ELSE v
+  IN CASE k \in {"scs", "winack"} -> IF Len(b) < 4 THEN DErr ELSE [ok |-> TRUE, f |-> <<kept(u32(1), 1)>>]
+       [] k = "peerbw" -> IF Len(b) < 5 THEN DErr ELSE [ok |-> TRUE, f |-> <<kept(u32(1), 1), U8V(b[5])>>]
+       [] k = "uc"     -> IF Len(b) < 2 THEN DErr
+                          ELSE LET et == BE16(b, 1) IN
+                               IF Len(b) < 2 + UcBodyLen(et) THEN DErr
+                               ELSE [ok |-> TRUE, f |-> <<U16V(et), IF et = 26 THEN U8V(b[3]) ELSE u32(3),
+                                                          IF et = 3 THEN u32(7) ELSE Absent>>]
+
+DecPktD(k, b, target, dev) == IF IsCommandKind(k) THEN DecSlots(k, b, 1, target, 1, <<>>, dev) ELSE DecCtl(k, b, target, dev)
+
+\* The kind the receiving protocol gives a message (type mt, payload b), given the request it has outstanding
+KindOfGoType(t) == CASE t = "ConnectAppPacket" -> "connect" [] t = "ConnectAppResPacket" -> "connectRes"
+                     [] t = "CreateStreamPacket" -> "createStream" [] t = "CreateStreamResPacket" -> "createStreamRes"
+                     [] t = "PublishPacket" -> "publish" [] t = "PlayPacket" -> "play" [] t = "CallPacket" -> "call"
+                     [] OTHER -> "error"
+DispatchKind(mt, b, pendingName) ==
+  CASE mt = 1 -> "scs" [] mt = 4 -> "uc" [] mt = 5 -> "winack" [] mt = 6 -> "peerbw"
+    [] mt = 20 -> LET d == DecVal(b, 1) IN
+                  IF ~d.ok \/ d.v.a # "str" THEN "error" ELSE KindOfGoType(KindOfCommand(d.v.b, pendingName))
+    [] OTHER -> "error"
+\* the transaction id of a command on the wire (the response constructors are given it)
+WireTid(b) == LET d == DecVal(b, 1) IN
+              IF ~d.ok THEN Num0 ELSE LET t == DecVal(b, 1 + d.n) IN IF t.ok /\ t.v.a = "num" THEN t.v.b ELSE Num0
+PendingFor(p) == CASE p.k = "connectRes" -> "connect" [] p.k = "createStreamRes" -> "createStream" [] OTHER -> "none"
 =============================================================================
